@@ -542,6 +542,51 @@ Proof.
   split; [lia|]. split; [assumption|]. eapply Forall_impl; [|exact H3]. cbn. intros; lia.
 Qed.
 
+(* fresh blocks are put in front of one part *)
+Lemma in_nth_concat {A} (x : A) parts : forall i, In x (nth i parts []) -> In x (concat parts).
+Proof.
+  induction parts as [|Y r IH]; intros [|k] H; cbn [nth concat] in *; try (destruct H; fail).
+  - apply in_app_iff. left; exact H.
+  - apply in_app_iff. right. apply (IH k). exact H.
+Qed.
+
+Lemma in_concat_upd_add {A} (X : list A) x parts i :
+  In x (concat (upd i (X ++ nth i parts []) parts)) -> In x X \/ In x (concat parts).
+Proof.
+  intros H. destruct (in_concat_upd _ _ _ _ H) as [H1|H1]; [|right; exact H1].
+  apply in_app_iff in H1. destruct H1 as [H1|H1]; [left; exact H1|right; eapply in_nth_concat; exact H1].
+Qed.
+
+Lemma concat_upd_add (X : list nat) lo n hi parts : forall i,
+  NoDup (concat parts) -> Forall (fun b => lo <= b < n) (concat parts) ->
+  NoDup X -> Forall (fun b => n <= b < hi) X -> lo <= n -> n <= hi ->
+  NoDup (concat (upd i (X ++ nth i parts []) parts))
+  /\ Forall (fun b => lo <= b < hi) (concat (upd i (X ++ nth i parts []) parts)).
+Proof.
+  intros i Hnd Hf HX HXf Hlo Hhi.
+  split.
+  2:{ apply Forall_forall. intros x Hx. destruct (in_concat_upd_add _ _ _ _ Hx) as [H|H].
+      - rewrite Forall_forall in HXf. specialize (HXf _ H). lia.
+      - rewrite Forall_forall in Hf. specialize (Hf _ H). lia. }
+  revert i Hnd Hf. induction parts as [|Y r IH]; intros [|k] Hnd Hf; cbn [upd concat nth] in *; try constructor.
+  - rewrite <- app_assoc. apply NoDup_app_intro; [exact HX|exact Hnd|].
+    intros x H1 H2. rewrite Forall_forall in HXf, Hf. specialize (HXf _ H1). specialize (Hf _ H2). lia.
+  - apply Forall_app in Hf. destruct Hf as [HfY Hfr].
+    apply NoDup_app_intro; [eapply NoDup_app_l; exact Hnd|apply IH; [eapply NoDup_app_r; exact Hnd|exact Hfr]|].
+    intros x H1 H2. destruct (in_concat_upd_add _ _ _ _ H2) as [H|H].
+    + rewrite Forall_forall in HXf, HfY. specialize (HXf _ H). specialize (HfY _ H1). lia.
+    + eapply NoDup_app_disj; eassumption.
+Qed.
+
+Lemma inv_add lo m s m' s' i X :
+  Inv lo m s -> block_parts m' = upd i (X ++ nth i (block_parts m) []) (block_parts m) ->
+  NoDup X -> Forall (fun b => ms_next s <= b < ms_next s') X -> ms_next s <= ms_next s' -> Inv lo m' s'.
+Proof.
+  intros (H1 & H2 & H3) Hb HX HXf Hle. unfold Inv, text_blocks in *. rewrite Hb.
+  destruct (concat_upd_add X lo (ms_next s) (ms_next s') (block_parts m) i H2 H3 HX HXf H1 Hle) as [A B].
+  split; [lia|]. split; assumption.
+Qed.
+
 (* one text component is replaced by itself or by a copy in the block just handed out *)
 Definition text_step (t t' : mtext) (s s' : mstate) : Prop :=
   (text_blk t' = text_blk t /\ ms_next s' = ms_next s)
@@ -1271,6 +1316,48 @@ Proof.
   - destruct Hsame as (s' & A & B & C & D). exists (m_segs m), s'. split; [exact A|split; [exact B|split; [exact C|exact D]]].
 Qed.
 
+(* uriFixAmbiguity fires: the path would begin with "//" *)
+Definition amb_needed (u : uri) : bool :=
+  match absolutePath u, pathSegs u with
+  | true, [] :: _ :: _ => true
+  | false, [] :: [] :: _ => negb (is_host_set u)
+  | _, _ => false
+  end.
+
+Lemma fix_ambiguity_needed u :
+  fix_ambiguity u = if amb_needed u then set_pathSegs ([46%N] :: pathSegs u) u else u.
+Proof.
+  unfold fix_ambiguity, amb_needed. destruct (absolutePath u).
+  - destruct (pathSegs u) as [|[|c x] [|t2 r]]; reflexivity.
+  - destruct (pathSegs u) as [|[|c x] [|[|c2 x2] r]]; try reflexivity. destruct (is_host_set u); reflexivity.
+Qed.
+
+(* the guard as uriNormalizeSyntaxEngine uses it, without faults: when it fires the node is the block
+   [ms_next s] and the copy of "." is the block after it *)
+Lemma fix_ambiguity_owned_m_nf m s : nofault s ->
+  exists segs' s', fix_ambiguity_owned_m cs m s = (true, set_m_segs segs' m, s')
+    /\ erase (set_m_segs segs' m) = fix_ambiguity (erase m)
+    /\ st_le s s'
+    /\ ((amb_needed (erase m) = false /\ segs' = m_segs m /\ s' = s)
+        \/ (amb_needed (erase m) = true
+            /\ segs' = {| sg_text := [46%N]; sg_blk := Some (S (ms_next s)); sg_node := ms_next s |} :: m_segs m
+            /\ s' = push_alloc false (tlen [46%N] * cs) (push_alloc false SEG_SIZE s))).
+Proof.
+  intros Hnf. unfold fix_ambiguity_owned_m. rewrite fix_ambiguity_needed.
+  change (match m_abs m with
+          | true => match map sg_text (m_segs m) with [] :: _ :: _ => true | _ => false end
+          | false => match map sg_text (m_segs m) with [] :: [] :: _ => negb (m_host_set m) | _ => false end
+          end) with (amb_needed (erase m)).
+  destruct (amb_needed (erase m)) eqn:En.
+  - rewrite (alloc_nf _ _ _ Hnf).
+    assert (nofault (push_alloc false SEG_SIZE s)) as Hnf1 by (apply (st_le_nofault _ _ (push_alloc_le _ _ _) Hnf)).
+    rewrite (alloc_nf _ _ _ Hnf1). rewrite push_alloc_next.
+    eexists; eexists. split; [reflexivity|]. split; [reflexivity|].
+    split; [eapply st_le_trans; apply push_alloc_le|]. right. split; [reflexivity|]. split; reflexivity.
+  - exists (m_segs m), s. rewrite set_m_segs_same. split; [reflexivity|]. split; [reflexivity|].
+    split; [apply st_le_refl|]. left. split; [reflexivity|]. split; reflexivity.
+Qed.
+
 Lemma fix_pct_nil : fix_pct [] = [].
 Proof. reflexivity. Qed.
 
@@ -1350,7 +1437,10 @@ Definition n_path_full (mask : N) (m : muri) (done : N) (s : mstate) : option (m
     | (false, m1, done1, s1) => (None, m1, done1, s1)
     | (true, m1, done1, s1) =>
       let '(ok, m2, s2) := remove_dot_segments_m relative (false || negb (N.land done1 B_PATH =? 0)%N) m1 s1 in
-      if ok then let '(m3, s3) := fix_empty_trail_m m2 s2 in (Some (m3, done1), m3, done1, s3)
+      if ok then
+        let '(ok', m2', s2') := fix_ambiguity_owned_m cs m2 s2 in
+        if ok' then let '(m3, s3) := fix_empty_trail_m m2' s2' in (Some (m3, done1), m3, done1, s3)
+        else (None, m2', done1, s2')
       else (None, m2, done1, s2)
     end
   else (Some (m, done), m, done, s).
@@ -1358,12 +1448,16 @@ Definition n_path_full (mask : N) (m : muri) (done : N) (s : mstate) : option (m
 Definition n_path (mask : N) : stage := fun m done s =>
   let '(r, _, _, s') := n_path_full mask m done s in (r, s').
 
+(* the value at the path step after the percent-encodings were fixed and the dot segments removed *)
+Definition path_rds (u : uri) : uri :=
+  let relative := negb (is_some (scheme u)) && negb (absolutePath u) && negb (is_host_set u) in
+  remove_dot_segments relative (set_pathSegs (map fix_pct (pathSegs u)) u).
+
 Definition F_path (mask : N) (u : uri) : uri :=
-  if bit mask M_PATH then
-    let relative := negb (is_some (scheme u)) && negb (absolutePath u) && negb (is_host_set u) in
-    let u := set_pathSegs (map fix_pct (pathSegs u)) u in
-    fix_empty_trail_segment (remove_dot_segments relative u)
-  else u.
+  if bit mask M_PATH then fix_empty_trail_segment (fix_ambiguity (path_rds u)) else u.
+
+(* the path step inserts the "." segment (a condition on the value alone) *)
+Definition guard_at (mask : N) (u : uri) : bool := bit mask M_PATH && amb_needed (path_rds u).
 
 Lemma lowercase_nil : lowercase [] = []. Proof. reflexivity. Qed.
 Lemma lep_fix_nil : (fun x : text => lowercase_except_pct (fix_pct x)) [] = []. Proof. reflexivity. Qed.
@@ -1435,28 +1529,40 @@ Proof.
   pose proof (st_le_nofault _ _ L1 Hnf) as Hnf1.
   destruct (remove_dot_segments_m_nf rel ow (set_m_segs segs1 m) s1 Hnf1) as (segs2 & s2 & E2 & R2 & S2 & L2).
   rewrite E2.
-  destruct (fix_empty_trail_m_nf (set_m_segs segs2 (set_m_segs segs1 m)) s2) as (segs3 & s3 & E3 & R3 & S3 & L3).
+  pose proof (st_le_nofault _ _ L2 Hnf1) as Hnf2.
+  destruct (fix_ambiguity_owned_m_nf (set_m_segs segs2 (set_m_segs segs1 m)) s2 Hnf2) as (segsA & sA & EA & RA & LA & CA).
+  rewrite EA.
+  destruct (fix_empty_trail_m_nf (set_m_segs segsA (set_m_segs segs2 (set_m_segs segs1 m))) sA) as (segs3 & s3 & E3 & R3 & S3 & L3).
   rewrite E3.
   eexists; exists (N.lor done (2 ^ 3)), (N.lor own (2 ^ cidx CPath)), s3. split; [reflexivity|].
-  cbn [m_segs set_m_segs] in S2, S3.
+  cbn [m_segs set_m_segs] in S2, S3, CA.
+  assert (Inv lo (set_m_segs segs2 (set_m_segs segs1 m)) s2) as HI2.
+  { eapply (inv_sub lo (set_m_segs segs1 m) s1 _ s2 5 (flat_map seg_blk segs2));
+      [|reflexivity|apply segsub_blocks; exact S2|apply L2].
+    eapply (inv_fresh lo m s _ s1 5 (flat_map seg_blk segs1)); [exact HI|reflexivity|exact ND1|exact F1|apply L1]. }
+  assert (forallb seg_owned segs2 = true) as O2 by (eapply segsub_owned; [exact S2|exact O1]).
+  assert (Inv lo (set_m_segs segsA (set_m_segs segs2 (set_m_segs segs1 m))) sA /\ forallb seg_owned segsA = true) as [HIA OA].
+  { destruct CA as [(_ & -> & ->)|(_ & -> & ->)]; [split; assumption|]. split.
+    - eapply (inv_add lo (set_m_segs segs2 (set_m_segs segs1 m)) s2 _ _ 5 [S (ms_next s2)]); [exact HI2|reflexivity| | |].
+      + constructor; [intros []|constructor].
+      + constructor; [rewrite !push_alloc_next; lia|constructor].
+      + rewrite !push_alloc_next. lia.
+    - cbn [forallb]. rewrite O2. reflexivity. }
   split; [|split; [|split; [|split; [|split; [|split]]]]].
   - apply mkG.
-    + apply (st_le_nofault _ _ L3). apply (st_le_nofault _ _ L2). exact Hnf1.
-    + eapply (inv_sub lo (set_m_segs segs2 (set_m_segs segs1 m)) s2 _ s3 5 (flat_map seg_blk segs3));
-        [|reflexivity|apply segsub_blocks; exact S3|apply L3].
-      eapply (inv_sub lo (set_m_segs segs1 m) s1 _ s2 5 (flat_map seg_blk segs2));
-        [|reflexivity|apply segsub_blocks; exact S2|apply L2].
-      eapply (inv_fresh lo m s _ s1 5 (flat_map seg_blk segs1)); [exact HI|reflexivity|exact ND1|exact F1|apply L1].
+    + apply (st_le_nofault _ _ L3). apply (st_le_nofault _ _ LA). exact Hnf2.
+    + eapply (inv_sub lo (set_m_segs segsA (set_m_segs segs2 (set_m_segs segs1 m))) sA _ s3 5 (flat_map seg_blk segs3));
+        [exact HIA|reflexivity|apply segsub_blocks; exact S3|apply L3].
     + exact Hh.
     + apply (own_after own CPath m); [exact HG|intros c' Hne; destruct c'; try reflexivity; congruence|].
-      cbn [comp_owned m_segs set_m_segs]. eapply segsub_owned; [exact S3|]. eapply segsub_owned; [exact S2|exact O1].
+      cbn [comp_owned m_segs set_m_segs]. eapply segsub_owned; [exact S3|exact OA].
   - apply sub_lor; exact Hsub.
   - apply sub_lor_r.
-  - rewrite R3, R2.
+  - rewrite R3, RA, R2. unfold path_rds.
     change (erase (set_m_segs segs1 m)) with (set_pathSegs (map sg_text segs1) (erase m)).
     rewrite V1. reflexivity.
   - exact Ho.
-  - eapply st_le_trans; [exact L1|]. eapply st_le_trans; [exact L2|exact L3].
+  - eapply st_le_trans; [exact L1|]. eapply st_le_trans; [exact L2|]. eapply st_le_trans; [exact LA|exact L3].
   - exact I.
 Qed.
 
@@ -1551,11 +1657,33 @@ Qed.
 (* ---------------------------------------------------------------- normalisation of an owned object (in place) *)
 Definition Go (m : muri) : Prop := mwf_host m /\ all_owned m = true.
 
-Definition ostage_spec (st : stage) (F : uri -> uri) : Prop :=
+(* what a stage of the in-place normalisation does to the text blocks: the block invariant is kept, and
+   a block of the result was a block of the object or was handed out during the stage *)
+Definition ostep (m : muri) (s : mstate) (m' : muri) (s' : mstate) : Prop :=
+  (forall lo, Inv lo m s -> Inv lo m' s')
+  /\ (forall b, In b (text_blocks m') -> In b (text_blocks m) \/ ms_next s <= b < ms_next s').
+
+Lemma ostep_sublist m s m' s' : sublist (text_blocks m') (text_blocks m) -> st_le s s' -> ostep m s m' s'.
+Proof.
+  intros Hs [_ Hl]. split.
+  - intros lo (H1 & H2 & H3). split; [lia|]. split; [eapply sublist_NoDup; eassumption|].
+    eapply sublist_Forall; [exact Hs|]. eapply Forall_impl; [|exact H3]. cbn. intros; lia.
+  - intros b Hb. left. eapply sublist_In; eassumption.
+Qed.
+Lemma ostep_trans m s m1 s1 m2 s2 : st_le s s1 -> st_le s1 s2 -> ostep m s m1 s1 -> ostep m1 s1 m2 s2 -> ostep m s m2 s2.
+Proof.
+  intros [_ L1] [_ L2] [A1 B1] [A2 B2]. split; [intros lo H; apply A2, A1, H|].
+  intros b Hb. destruct (B2 b Hb) as [H|H]; [|right; lia]. destruct (B1 b H) as [H'|H']; [left; exact H'|right; lia].
+Qed.
+
+(* [guard]: a condition on the value under which the stage may receive a text block; without it the text
+   blocks of the result are text blocks of the object *)
+Definition ostage_spec (st : stage) (F : uri -> uri) (guard : uri -> bool) : Prop :=
   forall m done s, nofault s -> m_owner m = true -> Go m ->
   exists m' s', st m done s = (Some (m', done), s')
     /\ Go m' /\ erase m' = F (erase m) /\ m_owner m' = true
-    /\ sublist (text_blocks m') (text_blocks m) /\ st_le s s'.
+    /\ ostep m s m' s' /\ (guard (erase m) = false -> sublist (text_blocks m') (text_blocks m)) /\ st_le s s'.
+Definition no_guard (u : uri) : bool := false.
 
 Definition o_text (cond : bool) (f : text -> text) (get : muri -> mtext) (set : mtext -> muri -> muri) : stage :=
   fun m done s =>
@@ -1598,9 +1726,20 @@ Hypothesis Hpsame : forall u, pset (pget u) u = u.
 Hypothesis Hhost : forall t m, mwf_host m -> mwf_host (set t m).
 Hypothesis Howner : forall t m, m_owner (set t m) = m_owner m.
 
-Lemma o_text_spec cond f : f [] = [] -> ostage_spec (o_text cond f get set) (F_text cond f pget pset).
+Lemma ostage_intro st F guard :
+  (forall m done s, nofault s -> m_owner m = true -> Go m ->
+   exists m' s', st m done s = (Some (m', done), s')
+     /\ Go m' /\ erase m' = F (erase m) /\ m_owner m' = true
+     /\ sublist (text_blocks m') (text_blocks m) /\ st_le s s') -> ostage_spec st F guard.
 Proof.
-  intros Hf m done s Hnf Ho (Hh & Ha). unfold o_text, F_text.
+  intros H m done s Hnf Ho HG. destruct (H m done s Hnf Ho HG) as (m' & s' & E & G' & R & W & B & L).
+  exists m', s'. split; [exact E|]. split; [exact G'|]. split; [exact R|]. split; [exact W|].
+  split; [apply ostep_sublist; assumption|]. split; [intros _; exact B|exact L].
+Qed.
+
+Lemma o_text_spec cond f : f [] = [] -> ostage_spec (o_text cond f get set) (F_text cond f pget pset) no_guard.
+Proof.
+  intros Hf. apply ostage_intro. intros m done s Hnf Ho (Hh & Ha). unfold o_text, F_text.
   assert (exists m' s', (Some (m, done), s) = (Some (m', done), s') /\ Go m' /\ erase m' = erase m
             /\ m_owner m' = true /\ sublist (text_blocks m') (text_blocks m) /\ st_le s s') as Hsame.
   { exists m, s. split; [reflexivity|]. split; [split; assumption|]. split; [reflexivity|]. split; [exact Ho|].
@@ -1621,13 +1760,13 @@ Proof.
 Qed.
 End OTextComp.
 
-Lemma o_scheme_spec cond f : f [] = [] -> ostage_spec (o_text cond f m_scheme set_m_scheme) (F_text cond f scheme set_scheme).
+Lemma o_scheme_spec cond f : f [] = [] -> ostage_spec (o_text cond f m_scheme set_m_scheme) (F_text cond f scheme set_scheme) no_guard.
 Proof. apply (o_text_spec CScheme m_scheme set_m_scheme 0%nat scheme set_scheme); tcomp_solve. Qed.
-Lemma o_user_spec cond f : f [] = [] -> ostage_spec (o_text cond f m_userInfo set_m_userInfo) (F_text cond f userInfo set_userInfo).
+Lemma o_user_spec cond f : f [] = [] -> ostage_spec (o_text cond f m_userInfo set_m_userInfo) (F_text cond f userInfo set_userInfo) no_guard.
 Proof. apply (o_text_spec CUser m_userInfo set_m_userInfo 1%nat userInfo set_userInfo); tcomp_solve. Qed.
-Lemma o_query_spec cond f : f [] = [] -> ostage_spec (o_text cond f m_query set_m_query) (F_text cond f query set_query).
+Lemma o_query_spec cond f : f [] = [] -> ostage_spec (o_text cond f m_query set_m_query) (F_text cond f query set_query) no_guard.
 Proof. apply (o_text_spec CQuery m_query set_m_query 6%nat query set_query); tcomp_solve. Qed.
-Lemma o_frag_spec cond f : f [] = [] -> ostage_spec (o_text cond f m_fragment set_m_fragment) (F_text cond f fragment set_fragment).
+Lemma o_frag_spec cond f : f [] = [] -> ostage_spec (o_text cond f m_fragment set_m_fragment) (F_text cond f fragment set_fragment) no_guard.
 Proof. apply (o_text_spec CFrag m_fragment set_m_fragment 7%nat fragment set_fragment); tcomp_solve. Qed.
 
 Definition o_host (mask : N) : stage := fun m done s =>
@@ -1658,15 +1797,18 @@ Definition o_path_full (mask : N) (m : muri) (done : N) (s : mstate) : option (m
     let relative := negb (is_some (t_val (m_scheme m))) && negb (m_abs m) && negb (m_host_set m) in
     let m1 := set_m_segs (map fix_seg (m_segs m)) m in
     let '(ok, m2, s2) := remove_dot_segments_m relative (true || negb (N.land done B_PATH =? 0)%N) m1 s in
-    if ok then let '(m3, s3) := fix_empty_trail_m m2 s2 in (Some (m3, done), m3, done, s3)
+    if ok then
+      let '(ok', m2', s2') := fix_ambiguity_owned_m cs m2 s2 in
+      if ok' then let '(m3, s3) := fix_empty_trail_m m2' s2' in (Some (m3, done), m3, done, s3)
+      else (None, m2', done, s2')
     else (None, m2, done, s2)
   else (Some (m, done), m, done, s).
 Definition o_path (mask : N) : stage := fun m done s =>
   let '(r, _, _, s') := o_path_full mask m done s in (r, s').
 
-Lemma o_host_spec mask : ostage_spec (o_host mask) (F_host mask).
+Lemma o_host_spec mask : ostage_spec (o_host mask) (F_host mask) no_guard.
 Proof.
-  intros m done s Hnf Ho (Hh & Ha). unfold o_host, F_host.
+  apply ostage_intro. intros m done s Hnf Ho (Hh & Ha). unfold o_host, F_host.
   assert (exists m' s', (Some (m, done), s) = (Some (m', done), s') /\ Go m' /\ erase m' = erase m
             /\ m_owner m' = true /\ sublist (text_blocks m') (text_blocks m) /\ st_le s s') as Hsame.
   { exists m, s. split; [reflexivity|]. split; [split; assumption|]. split; [reflexivity|]. split; [exact Ho|].
@@ -1722,32 +1864,61 @@ Proof.
   - rewrite IH3. reflexivity.
 Qed.
 
-Lemma o_path_spec mask : ostage_spec (o_path mask) (F_path mask).
+Lemma o_path_spec mask : ostage_spec (o_path mask) (F_path mask) (guard_at mask).
 Proof.
-  intros m done s Hnf Ho (Hh & Ha). unfold o_path, o_path_full, F_path.
+  intros m done s Hnf Ho (Hh & Ha). unfold o_path, o_path_full, F_path, guard_at.
   destruct (bit mask M_PATH).
   2:{ exists m, s. split; [reflexivity|]. split; [split; assumption|]. split; [reflexivity|]. split; [exact Ho|].
-      split; [apply sublist_refl|apply st_le_refl]. }
-  cbv zeta.
+      split; [apply ostep_sublist; [apply sublist_refl|apply st_le_refl]|]. split; [intros _; apply sublist_refl|apply st_le_refl]. }
+  cbv zeta. cbn [andb].
   set (rel := negb (is_some (t_val (m_scheme m))) && negb (m_abs m) && negb (m_host_set m)).
   set (ow := true || negb (N.land done B_PATH =? 0)%N).
   destruct (fix_seg_blocks (m_segs m)) as (B1 & B2 & B3).
   destruct (remove_dot_segments_m_nf rel ow (set_m_segs (map fix_seg (m_segs m)) m) s Hnf) as (segs2 & s2 & E2 & R2 & S2 & L2).
   rewrite E2.
-  destruct (fix_empty_trail_m_nf (set_m_segs segs2 (set_m_segs (map fix_seg (m_segs m)) m)) s2) as (segs3 & s3 & E3 & R3 & S3 & L3).
-  rewrite E3. cbn [m_segs set_m_segs] in S2, S3.
-  eexists; exists s3. split; [reflexivity|]. split; [|split; [|split; [|split]]].
+  pose proof (st_le_nofault _ _ L2 Hnf) as Hnf2.
+  set (m2 := set_m_segs segs2 (set_m_segs (map fix_seg (m_segs m)) m)) in *.
+  destruct (fix_ambiguity_owned_m_nf m2 s2 Hnf2) as (segsA & sA & EA & RA & LA & CA).
+  rewrite EA.
+  destruct (fix_empty_trail_m_nf (set_m_segs segsA m2) sA) as (segs3 & s3 & E3 & R3 & S3 & L3).
+  rewrite E3. cbn [m_segs set_m_segs m2] in S2, S3, CA.
+  assert (erase m2 = path_rds (erase m)) as Rm2.
+  { rewrite R2. unfold path_rds.
+    change (erase (set_m_segs (map fix_seg (m_segs m)) m)) with (set_pathSegs (map sg_text (map fix_seg (m_segs m))) (erase m)).
+    rewrite B3. reflexivity. }
+  assert (forallb seg_owned segs2 = true) as O2.
+  { eapply segsub_owned; [exact S2|]. apply B2. apply (all_owned_comp m CPath Ha). }
+  assert (sublist (text_blocks m2) (text_blocks m)) as Sb2.
+  { apply (concat_upd_sub (flat_map seg_blk segs2) (block_parts m) 5). cbn [nth block_parts].
+    eapply sublist_trans; [exact B1|]. apply segsub_blocks; exact S2. }
+  assert (sublist (text_blocks (set_m_segs segs3 (set_m_segs segsA m2))) (text_blocks (set_m_segs segsA m2))) as Sb3.
+  { apply (concat_upd_sub (flat_map seg_blk segs3) (block_parts (set_m_segs segsA m2)) 5). cbn [nth block_parts m_segs set_m_segs].
+    apply segsub_blocks; exact S3. }
+  assert (forallb seg_owned segsA = true /\ ostep m2 s2 (set_m_segs segsA m2) sA
+          /\ (amb_needed (erase m2) = false -> sublist (text_blocks (set_m_segs segsA m2)) (text_blocks m2))) as (OA & StA & SbA).
+  { destruct CA as [(_ & -> & ->)|(En & -> & ->)].
+    - split; [exact O2|]. unfold m2 at 2 4. cbn [m_segs set_m_segs]. fold m2.
+      split; [apply ostep_sublist; [apply sublist_refl|apply st_le_refl]|intros _; apply sublist_refl].
+    - split; [cbn [forallb]; rewrite O2; reflexivity|]. split; [|intros H; rewrite H in En; discriminate En].
+      split.
+      + intros lo HI2. eapply (inv_add lo m2 s2 _ _ 5 [S (ms_next s2)]); [exact HI2|reflexivity| | |].
+        * constructor; [intros []|constructor].
+        * constructor; [rewrite !push_alloc_next; lia|constructor].
+        * rewrite !push_alloc_next. lia.
+      + intros b Hb. unfold text_blocks in Hb.
+        change (block_parts (set_m_segs ({| sg_text := [46%N]; sg_blk := Some (S (ms_next s2)); sg_node := ms_next s2 |} :: segs2) m2))
+          with (upd 5 ([S (ms_next s2)] ++ nth 5 (block_parts m2) []) (block_parts m2)) in Hb.
+        destruct (in_concat_upd_add _ _ _ _ Hb) as [[<-|[]]|H]; [right; rewrite !push_alloc_next; lia|left; exact H]. }
+  eexists; exists s3. split; [reflexivity|]. split; [|split; [|split; [|split; [|split]]]].
   - split; [exact Hh|].
     apply (all_owned_set CPath m); [exact Ha|intros c' Hne; destruct c'; try reflexivity; congruence|].
-    cbn [comp_owned m_segs set_m_segs]. eapply segsub_owned; [exact S3|]. eapply segsub_owned; [exact S2|].
-    apply B2. apply (all_owned_comp m CPath Ha).
-  - rewrite R3, R2.
-    change (erase (set_m_segs (map fix_seg (m_segs m)) m)) with (set_pathSegs (map sg_text (map fix_seg (m_segs m))) (erase m)).
-    rewrite B3. reflexivity.
+    cbn [comp_owned m_segs set_m_segs]. eapply segsub_owned; [exact S3|exact OA].
+  - rewrite R3, RA, Rm2. reflexivity.
   - exact Ho.
-  - apply (concat_upd_sub (flat_map seg_blk segs3) (block_parts m) 5). cbn [nth block_parts].
-    eapply sublist_trans; [exact B1|]. eapply sublist_trans; [apply segsub_blocks; exact S2|apply segsub_blocks; exact S3].
-  - eapply st_le_trans; [exact L2|exact L3].
+  - apply (ostep_trans m s m2 s2); [exact L2|eapply st_le_trans; [exact LA|exact L3]|apply ostep_sublist; assumption|].
+    apply (ostep_trans m2 s2 (set_m_segs segsA m2) sA); [exact LA|exact L3|exact StA|apply ostep_sublist; assumption].
+  - rewrite <- Rm2. intros Hg. eapply sublist_trans; [exact Sb2|]. eapply sublist_trans; [apply SbA; exact Hg|exact Sb3].
+  - eapply st_le_trans; [exact L2|]. eapply st_le_trans; [exact LA|exact L3].
 Qed.
 
 Definition normalize_o (mask : N) (m : muri) (s : mstate) : N * muri * mstate :=
@@ -1778,41 +1949,89 @@ Definition normalize_o (mask : N) (m : muri) (s : mstate) : N * muri * mstate :=
 Lemma normalize_o_eq mask m s : m_owner m = true -> normalize_m cs mask m s = normalize_o mask m s.
 Proof. intros Ho. unfold normalize_m. rewrite Ho. reflexivity. Qed.
 
-Lemma normalize_m_owned mask m s :
-  nofault s -> m_owner m = true -> mwf m -> mask <> 0%N ->
+(* the path step inserts the "." segment: [guard_at] on the value that reaches the path step *)
+Definition path_guard (mask : N) (u : uri) : bool :=
+  guard_at mask (F_text (bit mask M_USER_INFO) fix_pct userInfo set_userInfo
+                   (F_host mask (F_text (bit mask M_SCHEME) lowercase scheme set_scheme u))).
+
+(* in-place normalisation, value and ownership; nothing is assumed about the block ids of the object *)
+Lemma normalize_m_owned_gen mask m s :
+  nofault s -> m_owner m = true -> mwf_host m -> all_owned m = true -> mask <> 0%N ->
   exists m' s', normalize_m cs mask m s = (URI_SUCCESS, m', s')
     /\ erase m' = normalize mask (erase m)
-    /\ m_owner m' = true /\ all_owned m' = true /\ mwf m'
-    /\ sublist (text_blocks m') (text_blocks m)
-    /\ nofault s'.
+    /\ m_owner m' = true /\ all_owned m' = true /\ mwf_host m'
+    /\ ostep m s m' s'
+    /\ (path_guard mask (erase m) = false -> sublist (text_blocks m') (text_blocks m))
+    /\ st_le s s'.
 Proof.
-  intros Hnf Ho (Hh & Hnd & Hao & _) Hmask. rewrite (normalize_o_eq _ _ _ Ho), normalize_unfold. unfold normalize_o.
+  intros Hnf Ho Hh Hao Hmask. rewrite (normalize_o_eq _ _ _ Ho), normalize_unfold. unfold normalize_o.
   apply N.eqb_neq in Hmask. rewrite Hmask.
-  assert (Go m) as G0 by (split; [exact Hh|apply Hao; exact Ho]).
-  destruct (o_scheme_spec (bit mask M_SCHEME) lowercase lowercase_nil m 0%N s Hnf Ho G0) as (m1 & s1 & E1 & G1 & R1 & W1 & B1 & L1).
+  assert (Go m) as G0 by (split; assumption).
+  destruct (o_scheme_spec (bit mask M_SCHEME) lowercase lowercase_nil m 0%N s Hnf Ho G0) as (m1 & s1 & E1 & G1 & R1 & W1 & T1 & B1 & L1).
   pose proof (st_le_nofault _ _ L1 Hnf) as N1.
-  destruct (o_host_spec mask m1 0%N s1 N1 W1 G1) as (m2 & s2 & E2 & G2 & R2 & W2 & B2 & L2).
+  destruct (o_host_spec mask m1 0%N s1 N1 W1 G1) as (m2 & s2 & E2 & G2 & R2 & W2 & T2 & B2 & L2).
   pose proof (st_le_nofault _ _ L2 N1) as N2.
-  destruct (o_user_spec (bit mask M_USER_INFO) fix_pct fix_pct_nil m2 0%N s2 N2 W2 G2) as (m3 & s3 & E3 & G3 & R3 & W3 & B3 & L3).
+  destruct (o_user_spec (bit mask M_USER_INFO) fix_pct fix_pct_nil m2 0%N s2 N2 W2 G2) as (m3 & s3 & E3 & G3 & R3 & W3 & T3 & B3 & L3).
   pose proof (st_le_nofault _ _ L3 N2) as N3.
-  destruct (o_path_spec mask m3 0%N s3 N3 W3 G3) as (m4 & s4 & E4 & G4 & R4 & W4 & B4 & L4).
+  destruct (o_path_spec mask m3 0%N s3 N3 W3 G3) as (m4 & s4 & E4 & G4 & R4 & W4 & T4 & B4 & L4).
   pose proof (st_le_nofault _ _ L4 N3) as N4.
-  destruct (o_query_spec (bit mask M_QUERY) fix_pct fix_pct_nil m4 0%N s4 N4 W4 G4) as (m5 & s5 & E5 & G5 & R5 & W5 & B5 & L5).
+  destruct (o_query_spec (bit mask M_QUERY) fix_pct fix_pct_nil m4 0%N s4 N4 W4 G4) as (m5 & s5 & E5 & G5 & R5 & W5 & T5 & B5 & L5).
   pose proof (st_le_nofault _ _ L5 N4) as N5.
-  destruct (o_frag_spec (bit mask M_FRAGMENT) fix_pct fix_pct_nil m5 0%N s5 N5 W5 G5) as (m6 & s6 & E6 & G6 & R6 & W6 & B6 & L6).
-  pose proof (st_le_nofault _ _ L6 N5) as N6.
+  destruct (o_frag_spec (bit mask M_FRAGMENT) fix_pct fix_pct_nil m5 0%N s5 N5 W5 G5) as (m6 & s6 & E6 & G6 & R6 & W6 & T6 & B6 & L6).
   rewrite E1, E2, E3. unfold o_path in E4.
   destruct (o_path_full mask m3 0%N s3) as [[[r mf] df] sf]. injection E4 as -> ->.
   rewrite E5, E6. exists m6, s6. split; [reflexivity|].
-  assert (sublist (text_blocks m6) (text_blocks m)) as Hsub.
-  { eapply sublist_trans; [exact B1|]. eapply sublist_trans; [exact B2|]. eapply sublist_trans; [exact B3|].
-    eapply sublist_trans; [exact B4|]. eapply sublist_trans; [exact B5|exact B6]. }
   destruct G6 as [Hh6 Ha6].
   split.
   { rewrite <- (erase_owned m6 W6). rewrite R6, R5, R4, R3, R2, R1. reflexivity. }
-  split; [exact W6|]. split; [exact Ha6|]. split; [|split; [exact Hsub|exact N6]].
-  split; [exact Hh6|]. split; [eapply sublist_NoDup; [exact Hsub|exact Hnd]|]. split; [intros _; exact Ha6|].
-  intros H. rewrite W6 in H. discriminate H.
+  split; [exact W6|]. split; [exact Ha6|]. split; [exact Hh6|].
+  assert (st_le s s2) as L02 by (eapply st_le_trans; eassumption).
+  assert (st_le s s3) as L03 by (eapply st_le_trans; eassumption).
+  assert (st_le s s4) as L04 by (eapply st_le_trans; eassumption).
+  assert (st_le s s5) as L05 by (eapply st_le_trans; eassumption).
+  assert (st_le s s6) as L06 by (eapply st_le_trans; eassumption).
+  split; [|split; [|exact L06]].
+  - apply (ostep_trans m s m5 s5 m6 s6 L05 L6); [|exact T6].
+    apply (ostep_trans m s m4 s4 m5 s5 L04 L5); [|exact T5].
+    apply (ostep_trans m s m3 s3 m4 s4 L03 L4); [|exact T4].
+    apply (ostep_trans m s m2 s2 m3 s3 L02 L3); [|exact T3].
+    apply (ostep_trans m s m1 s1 m2 s2 L1 L2); [exact T1|exact T2].
+  - unfold path_guard. rewrite <- R1, <- R2, <- R3. intros Hg.
+    eapply sublist_trans; [exact (B1 eq_refl)|]. eapply sublist_trans; [exact (B2 eq_refl)|]. eapply sublist_trans; [exact (B3 eq_refl)|].
+    eapply sublist_trans; [exact (B4 Hg)|]. eapply sublist_trans; [exact (B5 eq_refl)|exact (B6 eq_refl)].
+Qed.
+
+(* ... and the blocks, for an object whose text blocks were handed out by this ledger: they stay pairwise
+   distinct; the result holds blocks of the object and at most the copy of the "." of the guard segment *)
+Lemma normalize_m_owned mask m s :
+  nofault s -> m_owner m = true -> mwf m -> Forall (fun b => b < ms_next s) (text_blocks m) -> mask <> 0%N ->
+  exists m' s', normalize_m cs mask m s = (URI_SUCCESS, m', s')
+    /\ erase m' = normalize mask (erase m)
+    /\ m_owner m' = true /\ all_owned m' = true /\ mwf m'
+    /\ (forall b, In b (text_blocks m') -> In b (text_blocks m) \/ ms_next s <= b < ms_next s')
+    /\ (path_guard mask (erase m) = false -> sublist (text_blocks m') (text_blocks m))
+    /\ nofault s'.
+Proof.
+  intros Hnf Ho (Hh & Hnd & Hao & _) Hlt Hmask.
+  destruct (normalize_m_owned_gen mask m s Hnf Ho Hh (Hao Ho) Hmask) as (m' & s' & E & R & W & A & Hh' & [T1 T2] & Sb & L).
+  exists m', s'. split; [exact E|]. split; [exact R|]. split; [exact W|]. split; [exact A|].
+  split; [|split; [exact T2|split; [exact Sb|exact (st_le_nofault _ _ L Hnf)]]].
+  assert (Inv 0 m s) as HI.
+  { split; [lia|]. split; [exact Hnd|]. eapply Forall_impl; [|exact Hlt]. cbn. intros; lia. }
+  destruct (T1 0 HI) as (_ & Hnd' & _).
+  split; [exact Hh'|]. split; [exact Hnd'|]. split; [intros _; exact A|].
+  intros H. rewrite W in H. discriminate H.
+Qed.
+
+(* the value alone, for any well-formed owned object *)
+Lemma normalize_m_owned_value mask m s :
+  nofault s -> m_owner m = true -> mwf m -> mask <> 0%N ->
+  exists m' s', normalize_m cs mask m s = (URI_SUCCESS, m', s')
+    /\ erase m' = normalize mask (erase m) /\ m_owner m' = true /\ all_owned m' = true /\ nofault s'.
+Proof.
+  intros Hnf Ho (Hh & _ & Hao & _) Hmask.
+  destruct (normalize_m_owned_gen mask m s Hnf Ho Hh (Hao Ho) Hmask) as (m' & s' & E & R & W & A & _ & _ & _ & L).
+  exists m', s'. split; [exact E|]. split; [exact R|]. split; [exact W|]. split; [exact A|exact (st_le_nofault _ _ L Hnf)].
 Qed.
 
 
@@ -2243,8 +2462,24 @@ Qed.
 Definition rds_plan (u : uri) : list areq :=
   let rel := negb (is_some (scheme u)) && negb (absolutePath u) && negb (is_host_set u) in
   if rds_alloc rel [] (map fix_pct (pathSegs u)) then [RNode true] else [].
+(* the guard against a path beginning with "//": the node of the "." segment (malloc) and the copy of its
+   one character; [u] is the value that reaches the path step *)
+Definition amb_plan (u : uri) : list areq :=
+  if amb_needed (path_rds u) then [RNode false; RText 1] else [].
 Definition npath_plan (mask : N) (u : uri) : list areq :=
-  if bit mask M_PATH then segs_req (pathSegs u) ++ rds_plan u else [].
+  if bit mask M_PATH then segs_req (pathSegs u) ++ rds_plan u ++ amb_plan u else [].
+
+Lemma fix_ambiguity_owned_m_trace m s m' s' : nofault s ->
+  fix_ambiguity_owned_m cs m s = (true, m', s') ->
+  aextends s s' (map (req_event cs) (if amb_needed (erase m) then [RNode false; RText 1] else [])).
+Proof.
+  intros Hnf E. destruct (fix_ambiguity_owned_m_nf cs m s Hnf) as (segsA & sA & EA & _ & _ & CA).
+  rewrite EA in E. injection E as _ <-.
+  destruct CA as [(-> & _ & ->)|(-> & _ & ->)]; [apply aextends_refl|].
+  apply extends_aextends; [repeat constructor|].
+  apply (extends_trans s (push_alloc false SEG_SIZE s) _ [EvMalloc SEG_SIZE true] [EvMalloc (tlen [46%N] * cs) true]);
+    apply push_alloc_extends.
+Qed.
 
 Lemma n_path_trace mask m done s m' done' s' : nofault s ->
   n_path cs mask m done s = (Some (m', done'), s') ->
@@ -2261,15 +2496,22 @@ Proof.
   pose proof (st_le_nofault _ _ L1 Hnf) as Hnf1.
   destruct (remove_dot_segments_m_nf rel ow (set_m_segs segs1 m) s1 Hnf1) as (segs2 & s2 & E2 & R2 & S2 & L2).
   rewrite E2.
-  destruct (fix_empty_trail_m (set_m_segs segs2 (set_m_segs segs1 m)) s2) as [m3 s3] eqn:E3.
+  pose proof (st_le_nofault _ _ L2 Hnf1) as Hnf2.
+  destruct (fix_ambiguity_owned_m_nf cs (set_m_segs segs2 (set_m_segs segs1 m)) s2 Hnf2) as (segsA & sA & EA & _ & _ & _).
+  rewrite EA.
+  destruct (fix_empty_trail_m (set_m_segs segsA (set_m_segs segs2 (set_m_segs segs1 m))) sA) as [m3 s3] eqn:E3.
   intros H; injection H as <- <- <-. split; [|reflexivity].
-  rewrite map_app.
+  rewrite !map_app.
   eapply aextends_trans.
   - apply extends_aextends; [|exact (norm_segs_malloc_trace _ _ _ _ _ Hnf E1)].
     apply Forall_forall. intros e He. apply in_map_iff in He. destruct He as (r & <- & _). destruct r as [| [|] | |]; reflexivity.
-  - rewrite <- (app_nil_r (map (req_event cs) _)). eapply aextends_trans; [|exact (fix_empty_trail_m_aext _ _ _ _ E3)].
-    pose proof (remove_dot_segments_m_trace _ _ _ _ _ _ Hnf1 E2) as T.
-    cbn [m_segs set_m_segs] in T. rewrite V1 in T. exact T.
+  - eapply aextends_trans.
+    + pose proof (remove_dot_segments_m_trace _ _ _ _ _ _ Hnf1 E2) as T.
+      cbn [m_segs set_m_segs] in T. rewrite V1 in T. exact T.
+    + rewrite <- (app_nil_r (map (req_event cs) _)). eapply aextends_trans; [|exact (fix_empty_trail_m_aext _ _ _ _ E3)].
+      pose proof (fix_ambiguity_owned_m_trace _ _ _ _ Hnf2 EA) as T. rewrite R2 in T. unfold amb_plan, path_rds.
+      change (erase (set_m_segs segs1 m)) with (set_pathSegs (map sg_text segs1) (erase m)) in T.
+      rewrite V1 in T. exact T.
 Qed.
 
 Definition normalize_plan_b (mask : N) (u : uri) : list areq :=
@@ -2351,7 +2593,9 @@ Proof.
   apply extends_aextends; [apply all_alloc_reqs|exact T7].
 Qed.
 
-(* an owned object is normalised in place: the only request is the trailing node of the dot-segment walk *)
+(* an owned object is normalised in place: the only requests are the trailing node of the dot-segment walk
+   and, when the guard against a path beginning with "//" fires, the node and the one-character copy of its
+   "." segment *)
 Lemma o_text_state cond f get set m done s m' done' s' :
   o_text cs cond f get set m done s = (Some (m', done'), s') -> s' = s.
 Proof.
@@ -2368,8 +2612,8 @@ Proof.
 Qed.
 
 Lemma o_path_trace mask m done s m' done' s' : nofault s ->
-  o_path mask m done s = (Some (m', done'), s') ->
-  aextends s s' (map (req_event cs) (if bit mask M_PATH then rds_plan (erase m) else [])).
+  o_path cs mask m done s = (Some (m', done'), s') ->
+  aextends s s' (map (req_event cs) (if bit mask M_PATH then rds_plan (erase m) ++ amb_plan (erase m) else [])).
 Proof.
   intros Hnf. unfold o_path, o_path_full, rds_plan. destruct (bit mask M_PATH).
   2:{ intros H; injection H as <- <- <-. apply aextends_refl. }
@@ -2378,17 +2622,26 @@ Proof.
   set (ow := true || negb (N.land done B_PATH =? 0)%N).
   destruct (remove_dot_segments_m_nf rel ow (set_m_segs (map fix_seg (m_segs m)) m) s Hnf) as (segs2 & s2 & E2 & R2 & S2 & L2).
   rewrite E2.
-  destruct (fix_empty_trail_m (set_m_segs segs2 (set_m_segs (map fix_seg (m_segs m)) m)) s2) as [m3 s3] eqn:E3.
+  pose proof (st_le_nofault _ _ L2 Hnf) as Hnf2.
+  destruct (fix_ambiguity_owned_m_nf cs (set_m_segs segs2 (set_m_segs (map fix_seg (m_segs m)) m)) s2 Hnf2) as (segsA & sA & EA & _ & _ & _).
+  rewrite EA.
+  destruct (fix_empty_trail_m (set_m_segs segsA (set_m_segs segs2 (set_m_segs (map fix_seg (m_segs m)) m))) sA) as [m3 s3] eqn:E3.
   intros H; injection H as <- <- <-.
-  rewrite <- (app_nil_r (map (req_event cs) _)). eapply aextends_trans; [|exact (fix_empty_trail_m_aext _ _ _ _ E3)].
-  pose proof (remove_dot_segments_m_trace _ _ _ _ _ _ Hnf E2) as T.
-  cbn [m_segs set_m_segs] in T. destruct (fix_seg_blocks (m_segs m)) as (_ & _ & B3). rewrite B3 in T. exact T.
+  destruct (fix_seg_blocks (m_segs m)) as (_ & _ & B3).
+  rewrite map_app. eapply aextends_trans.
+  - pose proof (remove_dot_segments_m_trace _ _ _ _ _ _ Hnf E2) as T.
+    cbn [m_segs set_m_segs] in T. rewrite B3 in T. exact T.
+  - rewrite <- (app_nil_r (map (req_event cs) _)). eapply aextends_trans; [|exact (fix_empty_trail_m_aext _ _ _ _ E3)].
+    pose proof (fix_ambiguity_owned_m_trace _ _ _ _ Hnf2 EA) as T. rewrite R2 in T. unfold amb_plan, path_rds.
+    change (erase (set_m_segs (map fix_seg (m_segs m)) m)) with (set_pathSegs (map sg_text (map fix_seg (m_segs m))) (erase m)) in T.
+    rewrite B3 in T. exact T.
 Qed.
 
 Definition normalize_plan_o (mask : N) (u : uri) : list areq :=
   if bit mask M_PATH then
-    rds_plan (F_text (bit mask M_USER_INFO) fix_pct userInfo set_userInfo
-               (F_host mask (F_text (bit mask M_SCHEME) lowercase scheme set_scheme u)))
+    let u3 := F_text (bit mask M_USER_INFO) fix_pct userInfo set_userInfo
+                (F_host mask (F_text (bit mask M_SCHEME) lowercase scheme set_scheme u)) in
+    rds_plan u3 ++ amb_plan u3
   else [].
 
 Lemma normalize_m_owned_trace mask m s rc m' s' :
@@ -2399,23 +2652,23 @@ Proof.
   intros Hnf Ho (Hh & Hnd & Hao & _) Hmask. rewrite (normalize_o_eq _ _ _ _ Ho). unfold normalize_o.
   apply N.eqb_neq in Hmask. rewrite Hmask.
   assert (Go m) as G0 by (split; [exact Hh|apply Hao; exact Ho]).
-  destruct (o_scheme_spec cs (bit mask M_SCHEME) lowercase lowercase_nil m 0%N s Hnf Ho G0) as (m1 & s1 & E1 & G1 & R1 & W1 & B1 & L1).
+  destruct (o_scheme_spec cs (bit mask M_SCHEME) lowercase lowercase_nil m 0%N s Hnf Ho G0) as (m1 & s1 & E1 & G1 & R1 & W1 & _ & _ & L1).
   pose proof (o_text_state _ _ _ _ _ _ _ _ _ _ E1) as ->.
-  destruct (o_host_spec cs mask m1 0%N s Hnf W1 G1) as (m2 & s2 & E2 & G2 & R2 & W2 & B2 & L2).
+  destruct (o_host_spec cs mask m1 0%N s Hnf W1 G1) as (m2 & s2 & E2 & G2 & R2 & W2 & _ & _ & L2).
   pose proof (o_host_state _ _ _ _ _ _ _ E2) as ->.
-  destruct (o_user_spec cs (bit mask M_USER_INFO) fix_pct fix_pct_nil m2 0%N s Hnf W2 G2) as (m3 & s3 & E3 & G3 & R3 & W3 & B3 & L3).
+  destruct (o_user_spec cs (bit mask M_USER_INFO) fix_pct fix_pct_nil m2 0%N s Hnf W2 G2) as (m3 & s3 & E3 & G3 & R3 & W3 & _ & _ & L3).
   pose proof (o_text_state _ _ _ _ _ _ _ _ _ _ E3) as ->.
-  destruct (o_path_spec mask m3 0%N s Hnf W3 G3) as (m4 & s4 & E4 & G4 & R4 & W4 & B4 & L4).
+  destruct (o_path_spec cs mask m3 0%N s Hnf W3 G3) as (m4 & s4 & E4 & G4 & R4 & W4 & _ & _ & L4).
   pose proof (st_le_nofault _ _ L4 Hnf) as N4.
-  destruct (o_query_spec cs (bit mask M_QUERY) fix_pct fix_pct_nil m4 0%N s4 N4 W4 G4) as (m5 & s5 & E5 & G5 & R5 & W5 & B5 & L5).
+  destruct (o_query_spec cs (bit mask M_QUERY) fix_pct fix_pct_nil m4 0%N s4 N4 W4 G4) as (m5 & s5 & E5 & G5 & R5 & W5 & _ & _ & L5).
   pose proof (o_text_state _ _ _ _ _ _ _ _ _ _ E5) as ->.
-  destruct (o_frag_spec cs (bit mask M_FRAGMENT) fix_pct fix_pct_nil m5 0%N s4 N4 W5 G5) as (m6 & s6 & E6 & G6 & R6 & W6 & B6 & L6).
+  destruct (o_frag_spec cs (bit mask M_FRAGMENT) fix_pct fix_pct_nil m5 0%N s4 N4 W5 G5) as (m6 & s6 & E6 & G6 & R6 & W6 & _ & _ & L6).
   pose proof (o_text_state _ _ _ _ _ _ _ _ _ _ E6) as ->.
   pose proof (o_path_trace _ _ _ _ _ _ _ Hnf E4) as T4.
   rewrite E1, E2, E3. unfold o_path in E4.
-  destruct (o_path_full mask m3 0%N s) as [[[r mf] df] sf]. injection E4 as -> ->.
+  destruct (o_path_full cs mask m3 0%N s) as [[[r mf] df] sf]. injection E4 as -> ->.
   rewrite E5, E6. intros H; injection H as <- <- <-.
-  unfold normalize_plan_o. rewrite <- R1, <- R2, <- R3. destruct (bit mask M_PATH); exact T4.
+  unfold normalize_plan_o. cbv zeta. rewrite <- R1, <- R2, <- R3. destruct (bit mask M_PATH); exact T4.
 Qed.
 
 End Sizes.
@@ -2449,7 +2702,7 @@ Proof.
   unfold aextends, trace_of. intros H. rewrite !allocs_rev, H, rev_app_distr, rev_involutive. reflexivity.
 Qed.
 
-(* the plans consist of text copies and zero-initialised list nodes only *)
+(* without the guard of the path step the plans consist of text copies and zero-initialised list nodes only *)
 Definition text_or_node (r : areq) : Prop := match r with RText _ | RNode true => True | _ => False end.
 Lemma text_req_kind o : Forall text_or_node (text_req o).
 Proof. destruct o as [[|c x]|]; repeat constructor. Qed.
@@ -2465,23 +2718,42 @@ Lemma owner_plan_kind u : Forall text_or_node (owner_plan u).
 Proof. apply engine_plan_kind. Qed.
 Lemma rds_plan_kind u : Forall text_or_node (rds_plan u).
 Proof. unfold rds_plan. match goal with |- context [if ?b then _ else _] => destruct b end; repeat constructor. Qed.
-Lemma normalize_plan_b_kind mask u : Forall text_or_node (normalize_plan_b mask u).
+
+(* ... and, only when the guard against a path beginning with "//" fires, of the malloc'd node of its "."
+   segment.  A malloc'd node is an EvMalloc of SEG_SIZE bytes in every build: [trace_chars] would divide it
+   by the character size like a text, so plans with such a node are compared as plans *)
+Definition seg_or_text (r : areq) : Prop := match r with RText _ | RNode _ => True | _ => False end.
+Definition req_kind (g : bool) (r : areq) : Prop := if g then seg_or_text r else text_or_node r.
+Lemma text_or_node_seg r : text_or_node r -> seg_or_text r.
+Proof. destruct r as [n|[|]| |]; intros H; exact H || exact I. Qed.
+Lemma kind_weaken g l : Forall text_or_node l -> Forall (req_kind g) l.
+Proof. intros H. eapply Forall_impl; [|exact H]. intros r Hr. destruct g; [apply text_or_node_seg; exact Hr|exact Hr]. Qed.
+Lemma kind_seg g l : Forall (req_kind g) l -> Forall seg_or_text l.
+Proof. intros H. eapply Forall_impl; [|exact H]. intros r Hr. destruct g; [exact Hr|apply text_or_node_seg; exact Hr]. Qed.
+Lemma amb_plan_kind u : Forall (req_kind (amb_needed (path_rds u))) (amb_plan u).
+Proof. unfold amb_plan. destruct (amb_needed (path_rds u)); repeat constructor. Qed.
+Lemma normalize_plan_b_kind mask u : Forall (req_kind (path_guard mask u)) (normalize_plan_b mask u).
 Proof.
-  unfold normalize_plan_b. cbv zeta.
+  unfold normalize_plan_b, path_guard, guard_at. cbv zeta.
   apply Forall_app; split; [|apply Forall_app; split; [|apply Forall_app; split; [|apply Forall_app; split;
-    [|apply Forall_app; split; [|apply Forall_app; split; [|apply engine_plan_kind]]]]]].
-  - destruct (bit mask M_SCHEME); [apply text_req_kind|constructor].
-  - unfold nhost_plan. destruct (bit mask M_HOST); [|constructor].
+    [|apply Forall_app; split; [|apply Forall_app; split; [|apply kind_weaken, engine_plan_kind]]]]]].
+  - apply kind_weaken. destruct (bit mask M_SCHEME); [apply text_req_kind|constructor].
+  - apply kind_weaken. unfold nhost_plan. destruct (bit mask M_HOST); [|constructor].
     match goal with |- context [match ipFuture ?x with _ => _ end] => destruct (ipFuture x); [apply text_req_kind|] end.
     match goal with |- context [match hostText ?x with _ => _ end] => destruct (hostText x), (ip4 x), (ip6 x) end;
       try apply text_req_kind; constructor.
-  - destruct (bit mask M_USER_INFO); [apply text_req_kind|constructor].
-  - unfold npath_plan. destruct (bit mask M_PATH); [|constructor]. apply Forall_app. split; [apply segs_req_kind|apply rds_plan_kind].
-  - destruct (bit mask M_QUERY); [apply text_req_kind|constructor].
-  - destruct (bit mask M_FRAGMENT); [apply text_req_kind|constructor].
+  - apply kind_weaken. destruct (bit mask M_USER_INFO); [apply text_req_kind|constructor].
+  - unfold npath_plan. destruct (bit mask M_PATH); [|constructor]. cbn [andb].
+    apply Forall_app. split; [apply kind_weaken, segs_req_kind|].
+    apply Forall_app. split; [apply kind_weaken, rds_plan_kind|apply amb_plan_kind].
+  - apply kind_weaken. destruct (bit mask M_QUERY); [apply text_req_kind|constructor].
+  - apply kind_weaken. destruct (bit mask M_FRAGMENT); [apply text_req_kind|constructor].
 Qed.
-Lemma normalize_plan_o_kind mask u : Forall text_or_node (normalize_plan_o mask u).
-Proof. unfold normalize_plan_o. destruct (bit mask M_PATH); [apply rds_plan_kind|constructor]. Qed.
+Lemma normalize_plan_o_kind mask u : Forall (req_kind (path_guard mask u)) (normalize_plan_o mask u).
+Proof.
+  unfold normalize_plan_o, path_guard, guard_at. cbv zeta. destruct (bit mask M_PATH); [|constructor]. cbn [andb].
+  apply Forall_app. split; [apply kind_weaken, rds_plan_kind|apply amb_plan_kind].
+Qed.
 
 Lemma trace_chars_two c1 c2 plan : c1 <> 0%N -> c2 <> 0%N -> Forall text_or_node plan ->
   trace_chars c1 (map (req_event c1) plan) = trace_chars c2 (map (req_event c2) plan).
@@ -3120,17 +3392,36 @@ Proof.
   split; [apply fresh_blocks_intro; assumption|exact N].
 Qed.
 
-Lemma C12_normalize_owned_stmt csize mask m s : nofault s -> mwf m -> m_owner m = true -> mask <> 0%N ->
+(* owned object whose text blocks were handed out by this ledger: normalised in place; a text block of the
+   result is a text block of the object or was handed out during the call, and the latter happens only when
+   the guard against a path beginning with "//" inserts its "." segment *)
+Lemma C12_normalize_owned_stmt csize mask m s : nofault s -> mwf m -> m_owner m = true ->
+  Forall (fun b => b < ms_next s) (text_blocks m) -> mask <> 0%N ->
   exists m' s', normalize_m csize mask m s = (URI_SUCCESS, m', s')
     /\ erase m' = normalize mask (erase m)
     /\ m_owner m' = true /\ all_owned m' = true /\ depends_on_input m' = false
-    /\ mwf m' /\ incl (text_blocks m') (text_blocks m) /\ nofault s'.
+    /\ mwf m'
+    /\ (forall b, In b (text_blocks m') -> In b (text_blocks m) \/ ms_next s <= b < ms_next s')
+    /\ (path_guard mask (erase m) = false -> incl (text_blocks m') (text_blocks m))
+    /\ nofault s'.
 Proof.
-  intros Hnf Hw Ho Hmask.
-  destruct (normalize_m_owned csize mask m s Hnf Ho Hw Hmask) as (m' & s' & E & R & W & A & Wf & Sb & N).
+  intros Hnf Hw Ho Hlt Hmask.
+  destruct (normalize_m_owned csize mask m s Hnf Ho Hw Hlt Hmask) as (m' & s' & E & R & W & A & Wf & Fr & Sb & N).
   exists m', s'. split; [exact E|]. split; [exact R|]. split; [exact W|].
   split; [exact A|]. split; [unfold depends_on_input; rewrite A; reflexivity|]. split; [exact Wf|].
-  split; [intros b Hb; eapply sublist_In; eassumption|exact N].
+  split; [exact Fr|]. split; [intros Hg b Hb; eapply sublist_In; [exact (Sb Hg)|exact Hb]|exact N].
+Qed.
+
+(* value and ownership alone need no hypothesis on the block ids *)
+Lemma C12_normalize_owned_value_stmt csize mask m s : nofault s -> mwf m -> m_owner m = true -> mask <> 0%N ->
+  exists m' s', normalize_m csize mask m s = (URI_SUCCESS, m', s')
+    /\ erase m' = normalize mask (erase m)
+    /\ m_owner m' = true /\ all_owned m' = true /\ depends_on_input m' = false /\ nofault s'.
+Proof.
+  intros Hnf Hw Ho Hmask.
+  destruct (normalize_m_owned_value csize mask m s Hnf Ho Hw Hmask) as (m' & s' & E & R & W & A & N).
+  exists m', s'. split; [exact E|]. split; [exact R|]. split; [exact W|].
+  split; [exact A|]. split; [unfold depends_on_input; rewrite A; reflexivity|exact N].
 Qed.
 
 Lemma C12_normalize_zero_stmt csize m s : normalize_m csize 0 m s = (URI_SUCCESS, m, s) /\ normalize 0 (erase m) = erase m.
@@ -3179,10 +3470,16 @@ Proof.
   - destruct Hw as (Hh & _ & _ & Hb). apply (normalize_m_borrowed_trace csize mask m s rc m' s' Hnf Ho Hh (Hb Ho) Hmask E).
 Qed.
 
+Lemma normalize_plan_kind mask owned u : Forall (req_kind (path_guard mask u)) (normalize_plan mask owned u).
+Proof. unfold normalize_plan. destruct owned; [apply normalize_plan_o_kind|apply normalize_plan_b_kind]. Qed.
+
 Lemma C19_plans_kind_stmt mask owned u :
-  Forall text_or_node (owner_plan u) /\ Forall text_or_node (normalize_plan mask owned u).
+  Forall text_or_node (owner_plan u)
+  /\ Forall seg_or_text (normalize_plan mask owned u)
+  /\ (path_guard mask u = false -> Forall text_or_node (normalize_plan mask owned u)).
 Proof.
-  split; [apply owner_plan_kind|]. unfold normalize_plan. destruct owned; [apply normalize_plan_o_kind|apply normalize_plan_b_kind].
+  split; [apply owner_plan_kind|]. pose proof (normalize_plan_kind mask owned u) as K.
+  split; [eapply kind_seg; exact K|]. intros Hg. rewrite Hg in K. exact K.
 Qed.
 
 Lemma C19_normalize_two_sizes_stmt c1 c2 mask m s1 s2 :
@@ -3192,24 +3489,28 @@ Lemma C19_normalize_two_sizes_stmt c1 c2 mask m s1 s2 :
   /\ erase (snd (fst r1)) = erase (snd (fst r2))
   /\ exists ev1 ev2, allocs (trace_of (snd r1)) = allocs (trace_of s1) ++ ev1
                   /\ allocs (trace_of (snd r2)) = allocs (trace_of s2) ++ ev2
-                  /\ trace_chars c1 ev1 = trace_chars c2 ev2.
+                  /\ (exists plan, Forall seg_or_text plan
+                                   /\ ev1 = map (req_event c1) plan /\ ev2 = map (req_event c2) plan)
+                  /\ (path_guard mask (erase m) = false -> trace_chars c1 ev1 = trace_chars c2 ev2).
 Proof.
   intros H1 H2 N1 N2 Hw Hmask. cbv zeta.
   assert (exists m1 z1, normalize_m c1 mask m s1 = (URI_SUCCESS, m1, z1) /\ erase m1 = normalize mask (erase m)) as (m1 & z1 & E1 & R1).
   { destruct (m_owner m) eqn:Ho.
-    - destruct (normalize_m_owned c1 mask m s1 N1 Ho Hw Hmask) as (a & b & E & R & _). exists a, b. split; assumption.
+    - destruct (normalize_m_owned_value c1 mask m s1 N1 Ho Hw Hmask) as (a & b & E & R & _). exists a, b. split; assumption.
     - destruct Hw as (Hh & _ & _ & Hb). destruct (normalize_m_borrowed c1 mask m s1 N1 Ho Hh (Hb Ho) Hmask) as (a & b & E & R & _).
       exists a, b. split; assumption. }
   assert (exists m2 z2, normalize_m c2 mask m s2 = (URI_SUCCESS, m2, z2) /\ erase m2 = normalize mask (erase m)) as (m2 & z2 & E2 & R2).
   { destruct (m_owner m) eqn:Ho.
-    - destruct (normalize_m_owned c2 mask m s2 N2 Ho Hw Hmask) as (a & b & E & R & _). exists a, b. split; assumption.
+    - destruct (normalize_m_owned_value c2 mask m s2 N2 Ho Hw Hmask) as (a & b & E & R & _). exists a, b. split; assumption.
     - destruct Hw as (Hh & _ & _ & Hb). destruct (normalize_m_borrowed c2 mask m s2 N2 Ho Hh (Hb Ho) Hmask) as (a & b & E & R & _).
       exists a, b. split; assumption. }
   pose proof (C19_normalize_requests_stmt c1 mask m s1 _ _ _ N1 Hw Hmask E1) as T1.
   pose proof (C19_normalize_requests_stmt c2 mask m s2 _ _ _ N2 Hw Hmask E2) as T2.
   rewrite E1, E2. cbn [fst snd]. split; [reflexivity|]. split; [rewrite R1, R2; reflexivity|].
-  eexists; eexists. split; [exact T1|]. split; [exact T2|]. apply trace_chars_two; try assumption.
-  apply C19_plans_kind_stmt.
+  destruct (C19_plans_kind_stmt mask (m_owner m) (erase m)) as (_ & K1 & K2).
+  eexists; eexists. split; [exact T1|]. split; [exact T2|]. split.
+  - exists (normalize_plan mask (m_owner m) (erase m)). split; [exact K1|]. split; reflexivity.
+  - intros Hg. apply trace_chars_two; try assumption. apply K2. exact Hg.
 Qed.
 
 Lemma C19_make_owner_two_sizes_stmt c1 c2 m s1 s2 :
@@ -3227,3 +3528,74 @@ Lemma C12_ledger_wf_stmt p c sz b s :
   /\ (ledger_wf s -> ledger_wf (snd (alloc c sz s)))
   /\ (ledger_wf s -> ledger_wf (free_blk b s)).
 Proof. exact (conj (ledger_wf_init p) (conj (ledger_wf_alloc c sz s) (ledger_wf_free b s))). Qed.
+
+(* ---- why three statements about normalisation changed with the guard of uriNormalizeSyntaxEngine
+   (uriFixAmbiguity + a one-character copy in the path step): witnesses against the former conclusions *)
+Definition guard_text : text := [47; 46; 47; 47; 120]%N.       (* "/.//x": dot removal leaves "//x" *)
+Definition guard_parsed : muri * mstate :=
+  match parse_m guard_text (ms_init NoFault) with
+  | (MOk m, s1) => (m, s1)
+  | (_, s1) => (muri_empty, s1)
+  end.
+Definition guard_owned : muri * mstate :=
+  let '(_, m1, s2) := make_owner_m 1 (fst guard_parsed) (snd guard_parsed) in (m1, s2).
+
+(* 1. in-place normalisation of an owned object can receive a text block (the copy of the "." of the guard
+   segment): "the result holds no text block it did not hold before" fails *)
+Lemma normalize_owned_new_block_witness :
+  exists m s, nofault s /\ mwf m /\ m_owner m = true /\ Forall (fun b => b < ms_next s) (text_blocks m)
+    /\ path_guard 8 (erase m) = true
+    /\ exists m' s', normalize_m 1 8 m s = (URI_SUCCESS, m', s') /\ ~ incl (text_blocks m') (text_blocks m).
+Proof.
+  remember (fst guard_owned) as m eqn:Em. remember (snd guard_owned) as s eqn:Es. vm_compute in Em, Es.
+  exists m, s. subst m s.
+  split; [reflexivity|]. split.
+  { split; [intros x H; discriminate H|]. split.
+    - vm_compute. constructor; [intros [H|[]]; discriminate H|]. constructor; [intros []|constructor].
+    - split; [intros _; reflexivity|intros H; discriminate H]. }
+  split; [reflexivity|]. split; [vm_compute; repeat (constructor; [lia|]); constructor|]. split; [reflexivity|].
+  eexists; eexists. split; [vm_compute; reflexivity|].
+  vm_compute. intros H. destruct (H 6 (or_introl eq_refl)) as [H1|[H1|[]]]; discriminate H1.
+Qed.
+
+(* 2. nothing in [mwf m] relates the block ids of an owned object to the ledger; now that an owned
+   normalisation can be handed a text block, an object that records a block id the ledger has not handed
+   out yet gets that id a second time: [mwf m'] fails without the hypothesis on the ids *)
+Definition future_owned : muri :=
+  {| m_scheme := mt_none; m_userInfo := mt_none; m_hostText := mt_none; m_ip4 := None; m_ip6 := None;
+     m_ipFuture := mt_none; m_portText := mt_none;
+     m_segs := [ {| sg_text := [46%N]; sg_blk := Some 0; sg_node := 5 |};
+                 {| sg_text := []; sg_blk := None; sg_node := 6 |};
+                 {| sg_text := [120%N]; sg_blk := Some 1; sg_node := 7 |} ];
+     m_query := mt_none; m_fragment := mt_none; m_abs := true; m_owner := true |}.
+Lemma normalize_owned_future_block_witness :
+  nofault (ms_init NoFault) /\ mwf future_owned /\ m_owner future_owned = true
+  /\ exists m' s', normalize_m 1 8 future_owned (ms_init NoFault) = (URI_SUCCESS, m', s') /\ ~ mwf m'.
+Proof.
+  split; [reflexivity|]. split.
+  { split; [intros x H; discriminate H|]. split.
+    - vm_compute. constructor; [intros [H|[]]; discriminate H|]. constructor; [intros []|constructor].
+    - split; [intros _; reflexivity|intros H; discriminate H]. }
+  split; [reflexivity|]. eexists; eexists. split; [vm_compute; reflexivity|].
+  intros (_ & Hn & _). vm_compute in Hn. apply NoDup_cons_iff in Hn. destruct Hn as [Hn _]. apply Hn. left. reflexivity.
+Qed.
+
+(* 3. the malloc'd node of the guard segment is an EvMalloc of SEG_SIZE bytes in every build; [trace_chars]
+   divides it by the character size, so the two traces "in characters" differ (the lists ev1, ev2 are
+   determined by the two equations) *)
+Lemma normalize_two_sizes_trace_chars_witness :
+  exists m s, nofault s /\ mwf m /\ m_owner m = false /\ path_guard 8 (erase m) = true
+    /\ exists ev1 ev2, allocs (trace_of (snd (normalize_m 1 8 m s))) = allocs (trace_of s) ++ ev1
+                    /\ allocs (trace_of (snd (normalize_m 4 8 m s))) = allocs (trace_of s) ++ ev2
+                    /\ trace_chars 1 ev1 <> trace_chars 4 ev2.
+Proof.
+  remember (fst guard_parsed) as m eqn:Em. remember (snd guard_parsed) as s eqn:Es. vm_compute in Em, Es.
+  exists m, s. subst m s.
+  split; [reflexivity|]. split.
+  { split; [intros x H; discriminate H|]. split; [vm_compute; constructor|].
+    split; [intros H; discriminate H|intros _; reflexivity]. }
+  split; [reflexivity|]. split; [reflexivity|].
+  exists [EvMalloc 1 true; EvMalloc 1 true; EvMalloc 32 true; EvMalloc 1 true],
+         [EvMalloc 4 true; EvMalloc 4 true; EvMalloc 32 true; EvMalloc 4 true].
+  split; [vm_compute; reflexivity|]. split; [vm_compute; reflexivity|]. vm_compute. intros H. discriminate H.
+Qed.
